@@ -44,6 +44,22 @@ pub struct IsaStringHandle(u32);
 #[derive(Debug)]
 pub struct CmoHandle(u32);
 
+#[cfg(rust_vmm_acpi_tables_verif)]
+impl IsaStringHandle {
+    /// Verification hook: raw table offset carried by this handle.
+    pub fn verif_raw(&self) -> u32 {
+        self.0
+    }
+}
+
+#[cfg(rust_vmm_acpi_tables_verif)]
+impl CmoHandle {
+    /// Verification hook: raw table offset carried by this handle.
+    pub fn verif_raw(&self) -> u32 {
+        self.0
+    }
+}
+
 impl RHCT {
     pub fn new(
         oem_id: [u8; 6],
